@@ -76,11 +76,18 @@ Definition refutes (c : call) : Prop :=
 Ltac refute := split; [apply ex_respects|]; eexists; split; [reflexivity|]; unfold meets; vm_compute; intros (H & _);
                repeat match goal with H : exists _, _ |- _ => destruct H end; try discriminate; intuition discriminate.
 
-(* wrong argument types are answered with org.freedesktop.zbus.Error, not InvalidArgs *)
-Lemma invalid_args_refuted : refutes (ex_call (B "MTwo") false [VS (B "x")]).
-Proof. refute. Qed.
-Lemma invalid_args_class : class26 ex_root (ex_call (B "MTwo") false [VS (B "x")]) = Some InvalidArgsName.
-Proof. reflexivity. Qed.
+(* wrong argument types: since fix 86474bc3 the former witness of the class invalid_args_name meets the
+   specification — exactly one InvalidArgs error, the handler does not run *)
+Example invalid_args_answered :
+  let c := ex_call (B "MTwo") false [VS (B "x")] in
+  class26 ex_root c = None /\
+  exists x, spec26 ex_bh ex_root c = Some x /\ x_reply x = XErr EInvalidArgs None /\ x_log x = [] /\
+            meets x (dispatch ex_bh ex_root c) /\
+            dispatch ex_bh ex_root c = (reply_only (RErr EInvalidArgs None), ex_root).
+Proof.
+  cbn zeta. split; [reflexivity|]. eexists. split; [reflexivity|]. split; [reflexivity|]. split; [reflexivity|].
+  split; [|reflexivity]. apply dispatch_partial; [apply ex_respects|reflexivity|reflexivity|reflexivity].
+Qed.
 
 (* a method without inputs runs whatever the body holds *)
 Lemma noarg_extra_refuted : refutes (ex_call (B "MNoargs") false [VU 1]).
@@ -112,12 +119,6 @@ Ltac pack c :=
   match goal with
   | R : refutes c |- _ => destruct R as (R1 & x & R2 & R3); exists x
   end.
-
-Lemma invalid_args_name_refuted_full :
-  exists (bh : behaviour) (root : node) (c : call) (x : expect),
-    tree_respects bh root /\ class26 root c = Some InvalidArgsName /\
-    spec26 bh root c = Some x /\ ~ meets x (dispatch bh root c).
-Proof. pose proof invalid_args_refuted as R. pack (ex_call (B "MTwo") false [VS (B "x")]). exact (conj R1 (conj eq_refl (conj R2 R3))). Qed.
 
 Lemma noarg_extra_args_refuted_full :
   exists (bh : behaviour) (root : node) (c : call) (x : expect),
@@ -161,5 +162,5 @@ Lemma full_statement_refuted :
        tree_respects bh root -> is_props_call root c = false ->
        spec26 bh root c = Some x -> meets x (dispatch bh root c)).
 Proof.
-  intro F. destruct invalid_args_refuted as (R1 & x & R2 & R3). apply R3. apply F; auto.
+  intro F. destruct noarg_extra_refuted as (R1 & x & R2 & R3). apply R3. apply F; auto.
 Qed.
